@@ -5,6 +5,7 @@
 #include "src/lang.c"
 
 void harness(void) {
+    GHOST_INDICES_ARBITRARY();
     __CPROVER_assert(polyseed_get_num_langs() == 10, "registry: ten languages");
     int i = nondet_int(), j = nondet_int();
     __CPROVER_assume(i >= 0 && i < 10 && j >= 0 && j < 10);
